@@ -15,6 +15,9 @@
 //	con d<k> <addr,addr,…|->
 //	rel d<k>                      dec d<k> <addr|->
 //	tick <minutes>
+//	newpool <base>/<len> <deleg>     what NewPrefixPool builds for that geometry (stateless; no `new` needed)
+//	newapool <base>/<len>            what NewAddressPool builds
+//	    => n=<entries> d=<distinct> in=<1|0 all inside the base> first=<hex|-> last=<hex|-> sum=<hex mod 2^128> | invalid
 //
 // d0 = a message WITHOUT Client Identifier.
 //
@@ -367,6 +370,9 @@ func (r *run) Do(op string) string {
 	if len(f) == 0 {
 		return "badop"
 	}
+	if f[0] == "newpool" || f[0] == "newapool" {
+		return constructed(f)
+	}
 	if f[0] == "new" {
 		if len(f) != 5 {
 			return "badop"
@@ -523,6 +529,89 @@ func (r *run) Do(op string) string {
 	return reply + " " + r.snapshot()
 }
 
+// constructed builds a server with only the named pool through the REAL constructors (NewServer calls
+// NewPrefixPool / NewAddressPool) and reports what the free list contains.
+func constructed(f []string) string {
+	isPrefix := f[0] == "newpool"
+	if (isPrefix && len(f) != 3) || (!isPrefix && len(f) != 2) {
+		return "badop"
+	}
+	parts := strings.SplitN(f[1], "/", 2)
+	if len(parts) != 2 {
+		return "badop"
+	}
+	ip := hexIP6(parts[0])
+	plen, err := strconv.Atoi(parts[1])
+	if ip == nil || err != nil || plen < 0 || plen > 128 {
+		return "badop"
+	}
+	cidr := ip.String() + "/" + parts[1]
+	if ip.To4() != nil { // keep the textual form IPv6 (::ffff:a.b.c.d would be parsed as an IPv4 network)
+		return "badop"
+	}
+	_, base, err := net.ParseCIDR(cidr)
+	if err != nil {
+		return "badop"
+	}
+	cfg := dhcpv6.ServerConfig{Interface: "lo"}
+	deleg := 0
+	if isPrefix {
+		deleg, err = strconv.Atoi(f[2])
+		if err != nil || deleg < 1 || deleg > 255 {
+			return "badop"
+		}
+		cfg.PrefixPool, cfg.DelegationLength = cidr, uint8(deleg)
+	} else {
+		cfg.AddressPool = cidr
+	}
+	srv, err := dhcpv6.NewServer(cfg, zap.NewNop())
+	if err != nil {
+		return "invalid"
+	}
+	ps := srv.PoolStateForVerif()
+	var vals []*big.Int
+	inside := true
+	baseV := new(big.Int).SetBytes(base.IP.To16())
+	baseEnd := new(big.Int).Add(baseV, new(big.Int).Lsh(big.NewInt(1), uint(128-plen)))
+	if isPrefix {
+		for _, p := range ps.PrefixAvailable {
+			// numerically (net.IPNet.Contains would treat ::ffff:0:0/96-looking values as IPv4)
+			ones, bits := p.Mask.Size()
+			v := new(big.Int).SetBytes(p.IP.To16())
+			end := new(big.Int).Add(v, new(big.Int).Lsh(big.NewInt(1), uint(128-deleg)))
+			if ones != deleg || bits != 128 || v.Cmp(baseV) < 0 || end.Cmp(baseEnd) > 0 {
+				inside = false
+			}
+			vals = append(vals, v)
+		}
+	} else {
+		for _, a := range ps.AddrAvailable {
+			v := new(big.Int).SetBytes(a.To16())
+			if v.Cmp(baseV) <= 0 || v.Cmp(baseEnd) >= 0 {
+				inside = false
+			}
+			vals = append(vals, v)
+		}
+	}
+	seen := map[string]bool{}
+	sum := new(big.Int)
+	mod := new(big.Int).Lsh(big.NewInt(1), 128)
+	for _, v := range vals {
+		seen[v.Text(16)] = true
+		sum.Add(sum, v)
+		sum.Mod(sum, mod)
+	}
+	first, last := "-", "-"
+	if len(vals) > 0 {
+		first, last = vals[0].Text(16), vals[len(vals)-1].Text(16)
+	}
+	in := 0
+	if inside {
+		in = 1
+	}
+	return fmt.Sprintf("n=%d d=%d in=%d first=%s last=%s sum=%s", len(vals), len(seen), in, first, last, sum.Text(16))
+}
+
 // ---------------------------------------------------------------- generator
 
 type geo6 struct {
@@ -632,7 +721,61 @@ func (g geo6) randOp(r *rand.Rand, clients int) string {
 	}
 }
 
+// OnlyPools restricts generation to the constructor operations (`gen -only pools`: used by the checks that judge
+// the pools' construction but not the protocol, C01 and C05).
+var OnlyPools bool
+
+// genPools: the constructors over ALL legal geometries — every base length 0..127 with every delegation length
+// above it up to 128 (8256 prefix pools: every number of index bits 1..128, byte-aligned or not; the quick tier
+// takes all with up to 16 index bits and one in eight of the rest), a few illegal ones, and every address-pool
+// length 0..128.  The base is a fixed bit pattern masked to its length.
+func genPools(tier string, emit func([]string)) {
+	pattern, _ := new(big.Int).SetString("20010db8a5a53c3cf00f96695aa5c33c", 16)
+	baseOf := func(plen int) string {
+		mask := new(big.Int).Lsh(new(big.Int).Sub(new(big.Int).Lsh(big.NewInt(1), uint(plen)), big.NewInt(1)), uint(128-plen))
+		return new(big.Int).And(pattern, mask).Text(16)
+	}
+	var seq []string
+	flush := func() {
+		if len(seq) > 0 {
+			emit(seq)
+			seq = nil
+		}
+	}
+	for plen := 0; plen <= 127; plen++ {
+		for deleg := plen + 1; deleg <= 128; deleg++ {
+			// quick tier: every geometry with up to 16 index bits, one in eight of the wider ones
+			if tier != "thorough" && deleg-plen > 16 && (plen*131+deleg)%8 != 0 {
+				continue
+			}
+			seq = append(seq, fmt.Sprintf("newpool %s/%d %d", baseOf(plen), plen, deleg))
+			if len(seq) >= 24 {
+				flush()
+			}
+		}
+		// illegal: delegation length not above the base length / above 128
+		if plen > 0 {
+			seq = append(seq, fmt.Sprintf("newpool %s/%d %d", baseOf(plen), plen, plen))
+		}
+		if plen%16 == 0 {
+			seq = append(seq, fmt.Sprintf("newpool %s/%d 129", baseOf(plen), plen), fmt.Sprintf("newpool %s/%d 200", baseOf(plen), plen))
+		}
+	}
+	flush()
+	for plen := 0; plen <= 128; plen++ {
+		seq = append(seq, fmt.Sprintf("newapool %s/%d", baseOf(plen), plen))
+		if len(seq) >= 24 {
+			flush()
+		}
+	}
+	flush()
+}
+
 func (comp) Gen(r *rand.Rand, tier string, emit func([]string)) {
+	genPools(tier, emit)
+	if OnlyPools {
+		return
+	}
 	nShort, nLong := 700, 12
 	if tier == "thorough" {
 		nShort, nLong = 20000, 300
